@@ -163,6 +163,20 @@ CLAIMED["C15"] = (
     "DESIGN.md §3 C15",
     "Per-render state lives in State and the borrow checker forbids mutation during renders (witnessed).")
 
+CLAIMED["C12"] = (
+    "finite-domain abstract interpretation of the mode-dependent decision functions (decision tables over mode x value class from MIR) + who-may-read/receive rules for the mode + error-discipline rule at every helper call site",
+    "Static rule check: the decision tables of handle_undefined, is_true, assert_iterable, "
+    "assert_value_not_undefined and Environment::format are extracted from MIR for all 4 modes x {undefined, silent "
+    "undefined, defined} (x parent-undefined), must have upward-closed error sets with a mode-independent "
+    "continuation (monotonicity) and must equal the documented matrix; every other reader of the mode discriminant "
+    "must be a reviewed function and every mode test in the interpreter loop must select an upward-closed set; the "
+    "Result of each of the ~60 helper call sites is returned/propagated; a value of type UndefinedBehavior is only "
+    "passed to the reviewed functions (never into data); is defined / is undefined / default never assert their "
+    "operand.  Together a non-interference argument for 'stricter modes only add errors' over all programs and "
+    "contexts; per-site behaviour of third-party callbacks is assumed mode-independent.",
+    "DESIGN.md §3 C12",
+    "Host-registered filters/functions/objects are assumed not to consult the undefined behavior.")
+
 NOT_APPLICABLE = {
 }
 
